@@ -306,3 +306,29 @@ def run_gauge_case(config, xis_scaled, rnd, extreme=None, recenter=True, family=
     except Exception as e:  # noqa: BLE001
         rec["status"] = f"{type(e).__name__}: {str(e)[:160]}"
     return rec
+
+
+def run_basis_case(n, metric, strip, rnd):
+    """One seeded call of leaspy.utils.linalg.compute_orthonormal_basis (OrthoBasis.tla)."""
+    from leaspy.utils.linalg import compute_orthonormal_basis
+    rec = {"n": n, "metric": metric, "strip": strip, "status": "ok", "rows": 0, "cols": 0, "orthonormal": False, "orthogonal_to_Gd": False}
+    try:
+        d = torch.tensor([rnd.uniform(0.2, 3.0) * rnd.choice([1, 1, -1]) for _ in range(n)], dtype=torch.float32)
+        if metric == "scalar":
+            G = torch.tensor(rnd.uniform(0.3, 4.0))
+            Gd = G.double() * d.double()
+        elif metric == "vector":
+            G = torch.tensor([rnd.uniform(0.1, 30.0) for _ in range(n)], dtype=torch.float32)
+            Gd = G.double() * d.double()
+        else:
+            a = torch.tensor([[rnd.uniform(-1, 1) for _ in range(n)] for _ in range(n)], dtype=torch.float32)
+            G = a @ a.T + n * torch.eye(n)                 # symmetric positive definite
+            Gd = G.double() @ d.double()
+        B = compute_orthonormal_basis(d, G, strip_col=strip).double()
+        rec["rows"], rec["cols"] = int(B.shape[0]), int(B.shape[1])
+        rec["orthonormal"] = bool(((B.T @ B - torch.eye(B.shape[1], dtype=torch.double)).abs() <= 1e-5).all())
+        cos = (B.T @ Gd).abs() / (B.norm(dim=0) * Gd.norm() + 1e-300)
+        rec["orthogonal_to_Gd"] = bool((cos <= 1e-5).all())
+    except Exception as e:  # noqa: BLE001
+        rec["status"] = f"{type(e).__name__}: {str(e)[:100]}"
+    return rec
